@@ -199,6 +199,16 @@ impl<T: Elem> Parent<T> {
         }
         v.permuted_axes(IxDyn(&self.layout.perm))
     }
+    /// An OWNED array with the layout's shape and strides that still holds the whole parent
+    /// allocation (narrowed in place, like `Array::slice_move`): its backing vector contains
+    /// elements that are not part of the logical array.
+    pub fn owned_sliced(&self) -> ArrayD<T> {
+        let mut o = self.arr.clone();
+        for (ax, &(a, b, c)) in self.layout.slices.iter().enumerate() {
+            o.slice_axis_inplace(Axis(ax), Slice::new(a, Some(b), c));
+        }
+        o.permuted_axes(IxDyn(&self.layout.perm))
+    }
     /// The whole parent buffer in allocation order.
     pub fn dump(&self) -> String {
         let v: Vec<T> = self.arr.iter().cloned().collect();
